@@ -622,7 +622,9 @@ def schedule_oracle(ctx, d, usable, shape, L, every, num_iter, scale=1.0):
         if not ok:
             continue
         rtol = 1e-11
-        opts = dict(num_iter=num_iter, L=L, return_info=True, tol_residual=0.0, tol_increment=0.0, tol_distance=0.0,
+        # the penalty L and the regularisation are absolute flux scales: scaled with the masses the whole run is homogeneous
+        opts = dict(num_iter=num_iter, L=L * scale, regularization=float(np.finfo(float).eps) * scale, return_info=True,
+                    tol_residual=0.0, tol_increment=0.0, tol_distance=0.0,
                     bregman_update=(lambda it: it % every == every - 1))
         if s in ("amg", "cg"):
             opts["linear_solver_options"] = {"rtol": rtol, "atol": rtol if s == "amg" else 0.0, "maxiter": 1000}
